@@ -299,6 +299,40 @@ pub fn accept_case(c: &AcceptCase, obs: &mut Obs) -> PResult {
     }
 }
 
+/// Levels at which the reciprocal-space lower bound of a harmonic request is strictly positive but within a relative
+/// 10^-3 … 10^-12 of zero: the harmonic upper bound is then huge but finite, and still the reciprocal of that bound.
+/// The level is found from the harness' own Student-t CDF: bound = mean_r - c se_r = 0 at c* = mean_r / se_r.
+#[derive(Clone, Debug, Serialize, Deserialize)]
+pub struct CrossCase {
+    pub sample: Sample,
+    /// 0 two-sided, 2 lower one-sided (the kinds whose reciprocal-space lower bound is used)
+    pub kind: u8,
+    /// distance below the crossing level, as a power of ten (3..=12)
+    pub decade: u8,
+}
+pub fn cross_case(c: &CrossCase, obs: &mut Obs) -> PResult {
+    let recs: Vec<f64> = c.sample.data.iter().map(|x| if c.sample.f32 { (1.0f32 / x.0 as f32) as f64 } else { 1.0 / x.0 }).collect();
+    let r = crate::meanref::MeanRef::new(&recs);
+    if !(r.se > 0.0) || c.sample.data.len() < 2 {
+        return Ok(());
+    }
+    let cstar = r.mean / r.se;
+    let dof = (c.sample.data.len() - 1) as f64;
+    if !(cstar > 0.05 && cstar < 200.0) {
+        obs.exclude("zero crossing outside the range of critical values probed (0.05 … 200)");
+        return Ok(());
+    }
+    // critical value slightly below c*: the reciprocal-space bound is mean_r (1 - c / c*) > 0
+    let cc = cstar * (1.0 - (10f64).powi(-(c.decade as i32)));
+    let p = crate::refmath::t_cdf(dof, cc);
+    let level = if c.kind == 0 { 2.0 * p - 1.0 } else { p };
+    if !(level > 0.0 && level < 1.0) {
+        return Ok(());
+    }
+    obs.class(&format!("zero_crossing/{}/1e-{}", if c.sample.f32 { "f32" } else { "f64" }, c.decade));
+    positive_case(&Case { sample: c.sample.clone(), conf: Conf::new(c.kind, level), style: c.decade % 3 }, obs)
+}
+
 pub fn strategy(max_n: usize) -> impl Strategy<Value = Case> {
     // 4 %: vanishing levels (two-sided down to the smallest positive double; one-sided down to 1e-17, below which the
     // Student-t quantile of the dependency gives up)
@@ -308,7 +342,7 @@ pub fn strategy(max_n: usize) -> impl Strategy<Value = Case> {
 
 pub fn run(run: &mut Run) {
     run.technique = "proptest random search with shrinking; differential oracle = Arithmetic on ln x / 1/x computed with the same primitives (<= 2 ulp), AM-GM-HM chain; exhaustive placement of non-positive values at every position of valid data with a state snapshot".into();
-    run.rule = "strictly positive samples (f32/f64, n 2..2000, dynamic range up to 2^±40, near-constant) x confidences x 3 call styles; non-positive value from {0, -0, -tiny, -1, -inf, -1e300} at every position of valid data of lengths 0..6 (and sampled positions in longer data) for Geometric and Harmonic; non-trivial = non-constant positive data outside the straddle class, and every rejection case".into();
+    run.rule = "strictly positive samples (f32/f64, n 2..2000, dynamic range up to 2^±40, near-constant) x confidences x 3 call styles; harmonic requests at levels within a relative 1e-3 … 1e-12 below the level at which the reciprocal-space lower bound reaches zero (found with the harness' own t CDF); non-positive value from {0, -0, -tiny, -1, -inf, -1e300} at every position of valid data of lengths 0..6 (and sampled positions in longer data) for Geometric and Harmonic; non-trivial = non-constant positive data outside the straddle class, and every rejection case".into();
     let (cases, shards, max_n) = match run.tier {
         crate::engine::Tier::Quick => (80_000u32, 32usize, 1000usize),
         crate::engine::Tier::Thorough => (3_200_000, 256, 5000),
@@ -317,6 +351,18 @@ pub fn run(run: &mut Run) {
     run.par(shards, |shard, obs| {
         crate::engine::prop_on(obs, "positive", cases / shards as u32, crate::engine::mix(seed, "shard", shard as u64), strategy(max_n), positive_case);
     });
+    // levels just below the one at which the reciprocal-space lower bound of the harmonic interval reaches zero
+    {
+        let s = || (gen::positive_sample(12), prop::sample::select(vec![0u8, 2]), 3u8..=12).prop_map(|(sample, kind, decade)| CrossCase { sample, kind, decade });
+        let seed = run.seed_for("zero_crossing", 0);
+        let cases = run.tier.pick(16_000u32, 800_000);
+        run.par(16, |shard, obs| {
+            crate::engine::prop_on(obs, "zero_crossing", cases / 16, crate::engine::mix(seed, "shard", shard as u64), s(), cross_case);
+        });
+        for c in ["zero_crossing/f32/1e-7", "zero_crossing/f32/1e-9", "zero_crossing/f64/1e-12"] {
+            run.require_class(c);
+        }
+    }
     // rejections: every position of short valid data, sampled positions of longer data
     let base: Vec<f64> = vec![0.5, 3.0, 0.125, 7.25, 1.0, 1e-3, 2e3, 0.75, 9.5, 4.0];
     for f32_ in [false, true] {
@@ -366,6 +412,7 @@ pub fn replay(sub: &str, v: &Value, obs: &mut Obs) -> Option<PResult> {
     Some(match sub {
         "history" => crate::props::history::case(&de(v), obs),
         "positive" => positive_case(&de(v), obs),
+        "zero_crossing" => cross_case(&de(v), obs),
         "reject" => reject_case(&de(v), obs),
         "accept" => accept_case(&de(v), obs),
         _ => return None,
